@@ -222,6 +222,22 @@ Proof.
     rewrite Hc. split; [apply pfx_cons; exact P|]. split; [discriminate|exact C].
 Qed.
 
+Lemma read_multi_comment_view rs n st pre c suf l st' :
+  view rs st pre (c :: suf) -> peek_char st = 42 -> read_multi_comment n st = OK (l, st') ->
+  pfx l (c :: suf) /\ l <> [] /\ cur rs st'.
+Proof.
+  intros V Hp R. unfold read_multi_comment in R.
+  pose proof (view_cons_ch _ _ _ _ _ V) as Hc.
+  destruct (peek_ascii _ _ _ _ _ 42 V Hp) as (suf' & ->); [discriminate|reflexivity|].
+  pose proof (read_char_view _ _ _ _ _ V) as V1.
+  pose proof (view_cons_ch _ _ _ _ _ V1) as Hc1.
+  pose proof (read_char_view _ _ _ _ _ V1) as V2.
+  destruct (read_multi n (read_char (read_char st))) as [[l2 s2]| | |] eqn:R2; cbn in R; try discriminate.
+  injection R as <- <-.
+  destruct (read_multi_view rs _ _ _ _ _ _ V2 R2) as (P & _ & C).
+  rewrite Hc, Hc1. split; [apply pfx_cons, pfx_cons; exact P|]. split; [discriminate|exact C].
+Qed.
+
 (* ---- long strings ---- *)
 Definition dl_ok (b : byte) : Prop := b2n b < 128 /\ b2n b <> 10.
 
